@@ -15,7 +15,7 @@ MALFORMED = {
     "odd_hex": [b"*8D4840D;\n"],
     "nonhex": [b"*8DZZ40D6202CC371C32CE0576098;\n", b"hello world\n"],
     "non_ascii": ["*8D4840D6é02CC371C32CE0576098;\n".encode(), "é\n".encode(), "*é;\n".encode(), "ééé\n".encode(), "*8D4840D6202CC371C32CE05760é\n".encode()],
-    "invalid_utf8": [b"*8D48\xff\xfe40D6;\n", b"\xff\n"],
+    "invalid_utf8": [b"*8D48\xff\xfe40D6;\n", b"\xff\n", b"*8D4840D6202CC371C32CE05760\xff\xfe;\n", b"*8D4840D6202CC371C32CE0576098\xc3;\n"],
     "all_zero": [b"*0000000000000000000000000000;\n", b"*00000000000000;\n"],
     "undecodable_df": [b"*10FFFFFFFFFFFF;\n", b"*B8AAAAAAAAAAAAAAAAAAAAAAAAAA;\n"],
     "truncated_frame": [b"*8D4840D6;\n", b"*8D4840D6202CC371C32CE0;\n"],
@@ -349,7 +349,9 @@ def main(a, lcol, col, run_all, scratch, START):
         combos.append(("per_line", "none", m))
         if m != "none":
             # the same malformed lines cut in the middle with pauses beyond the read timeout
-            combos.append((["cut_in_hex", "random_cuts", "cut_after_star"][k % 3], "gt_timeout", m))
+            # (non-UTF-8 bytes late in a line: the cut must leave a valid head behind the pause)
+            sk = "cut_in_hex" if m in ("invalid_utf8", "non_ascii") else ["cut_in_hex", "random_cuts", "cut_after_star"][k % 3]
+            combos.append((sk, "gt_timeout", m))
     for sk in SEGMENTATIONS:
         for dk in DELAYS:
             if sk == "per_byte" and dk == "gt_timeout":
